@@ -28,6 +28,10 @@ def cases(ctx, rng):
                 L.append("plant %s/part-%02d y 600 %d %d" % (sub, j, MT.BASE - 60 * 10**9, MT.BASE - 60 * 10**9))
                 L.append("plant %s/.kismet_temp/part-%02d z 600 %d %d" % (D, j, MT.BASE - 3 * MT.HOUR, MT.BASE - 3 * MT.HOUR))
             L.append("mkdirt %s %d" % (sub, MT.BASE - 5 * MT.HOUR))
+        if rng.below(2):
+            # an OLD and EMPTY directory inside the temp dir (the husk of somebody's staging area):
+            # rmdir would succeed on it, and maintenance never removes directories
+            L.append("mkdirt %s/.kismet_temp/husk %d" % (D, MT.BASE - 4 * MT.HOUR))
         L.append(G.FIRE)
         L.append("snap")
         if mode == "sset":
@@ -101,7 +105,7 @@ def run(ctx):
         if k not in seen:
             seen.add(k); uniq.append(v)
     cov = {"evaluations": len(res), "distinct_nontrivial": nontriv,
-           "rule": "random directory populations mixing key-named files (tied modification times, read marks), dot-prefixed application files, sub-directories with content, .kismet_temp contents aged limit +- {1 ns, 1 s, 10 s} and exactly the limit under a scripted clock, nested directories inside the temp dir (including an old one holding young files named like stale siblings), every capacity 0..n+1, plain set/put and sharded set with maintenance firing: everything that disappears must be a key-named file of the directory or a stale file directly in its temp dir; stale temp files must go, young ones stay; nothing else may change. Non-trivial = something was removed.",
+           "rule": "random directory populations mixing key-named files (tied modification times, read marks), dot-prefixed application files, sub-directories with content, .kismet_temp contents aged limit +- {1 ns, 1 s, 10 s} and exactly the limit under a scripted clock, nested directories inside the temp dir (including an old one holding young files named like stale siblings, and an old empty one), every capacity 0..n+1, plain set/put and sharded set with maintenance firing: everything that disappears must be a key-named file of the directory or a stale file directly in its temp dir; stale temp files must go, young ones stay; nothing else may change. Non-trivial = something was removed.",
            "samples": samples, "traces_validated_against_impl": agree}
     if not ctx.quick():
         rc, o = C.coqchk(PROPS)
